@@ -243,6 +243,29 @@ def rule_c(prog, rep):
     else:
         rep.violation('C16.c', 'schedule_send', s.loc, f'timer task does {sorted(seqs)}', key='C16.c/schedule_send')
     lp = crate.fn(f'{AGG}::aggregate_loop')
+
+    def cl3(nd, anc):
+        if nd.get('k') == 'call':
+            c = callee(nd)
+            if c == f'{AGG}::send_current_state':
+                return 'flush'
+            if c == f'{AGG}::aggregate':
+                return 'aggregate'
+        return None
+    loops = [nd for nd, an in crate.walk_fn(lp) if nd.get('k') == 'loop']
+    if not loops:
+        raise AnchorMissing('loop in aggregate_loop')
+    tr3 = Tracer(crate, cl3, cond_events=('tick', 'event'))
+    tr3.env = {}
+    bp = tr3.expr(loops[0]['body'])
+    skipped = [t for (ex, t, v) in bp if '?tick=1' in t and 'flush' not in t]
+    fired = [t for (ex, t, v) in bp if '?tick=1' in t and 'flush' in t]
+    if skipped or not fired:
+        rep.violation('C16.c', 'aggregate_loop:trigger', lp.loc, f'a timer trigger can be consumed without flushing the buffers: '
+                      f'{[list(x) for x in skipped[:1]]} - an event buffered after an early (conflict) flush would wait for the next event',
+                      key='C16.c/aggregate_loop/trigger-without-flush', expected='every received trigger calls send_current_state()')
+    else:
+        rep.ok('C16.c', 'aggregate_loop:trigger', lp.loc, f'{len(fired)} trigger paths, each flushes unconditionally')
     cs = {callee(nd) for nd, an in crate.calls(lp)}
     lb = Bindings(crate, lp)
     ag = crate.calls(lp, lambda c: c == f'{AGG}::aggregate')
